@@ -141,6 +141,21 @@ def run_prop(prop, tier):
                     oracle_references(chk, r)
                 else:
                     oracle_order_whole(chk, r)
+    if prop == 'C18':
+        # whole files with 2..3 logical files, every data source kind (one structured array / HDF5 file / dict shared by
+        # all frames of all logical files): each logical file must decode to its own objects and its own rows
+        R18 = rng('C18', 'whole-file')
+        n18 = 120 if tier == 'quick' else 1000
+        specs = [(i, filegen.gen_spec(R18, n_lf=R18.choice([2, 2, 3]), small=(i % 2 == 0))) for i in range(n18)]
+        runs = wf.execute(specs, model, bres, chk)
+        good = []
+        for r in runs:
+            chk.case('whole-file', nontrivial_key=('wf', r.index) if r.res['status'] == 'ok' else None, sample=wf.sample_of(r))
+            if r.res['status'] == 'ok' and bres.ok and wf.oracle_readable(r, chk, 'c18'):
+                wf.oracle_fidelity(r, chk)
+                good.append(r)
+        wf.run_frames_oracle(good, model, bres, chk)
+        wf.run_noformat_oracle(good, model, bres, chk)
     if prop in ('C07', 'C09'):
         # objects renamed / moved to another origin after a first write, then the same DLISFile written again
         for r in wf.rewrite_runs(prop, tier, model, bres, chk, 60, 500):
